@@ -200,16 +200,10 @@ func readBufioSize(reader *bufio.Reader, size int64) ([]byte, error, bool) {
 }
 
 func readBufioLine(reader *bufio.Reader) ([]byte, error, bool) {
-	result := []byte{}
-	var buf []byte
-	var err error
-	var isprefix bool = true
-	for isprefix {
-		buf, isprefix, err = reader.ReadLine()
-		if err != nil {
-			break
-		}
-		result = append(result, buf...)
+	// ReadBytes rather than ReadLine: ReadLine also strips a '\r' in front of the '\n', Lua strips the '\n' only
+	result, err := reader.ReadBytes('\n')
+	if n := len(result); n > 0 && result[n-1] == '\n' {
+		result = result[:n-1]
 	}
 	e := err
 	if e != nil && e == io.EOF {
